@@ -258,6 +258,13 @@ def _unit(args):
                 return out
             if not obs and chunk == 0:
                 out["undecided"].append(f"{key}: contract generated no obligation (vacuous)")
+            if nchunks > 1:
+                # every worker of a split function regenerates the obligation list and solves its share by position: the lists must be identical
+                # (a feasibility query that times out in one worker only would shift them) - the parent compares these fingerprints
+                # (ids carry per-kind counters, so an extra or missing obligation shows; term names differ between workers and are left out)
+                import hashlib as _hl
+
+                out["fingerprint"] = (wname, key, len(obs), _hl.sha1("\n".join(f"{ob.id}|{len(ob.hyps)}" for ob in obs).encode()).hexdigest())
             if chunk == 0:
                 out["meta"] = {"function": key, "obligations": len(obs), "sha256": extract.load(c.module).sha256[:16], "gen_s": round(time.time() - t0, 2),
                                "trusted": sorted(ex.used_trusted), "inlined": sorted(ex.inlined), "assumed": sorted(ex.used_contracts)}
@@ -336,7 +343,7 @@ def run_property(prop: Prop, tier: str, seed: int, new_world, timeout_quick=30.0
     _G.update(w=w, worlds=worlds, prop=prop, known=known, timeout=timeout)
     heavy = getattr(prop, "heavy", {})
     units = []
-    for t in prop.targets:
+    for t in list(prop.targets) + (list(getattr(prop, "targets_thorough", [])) if tier == "thorough" else []):   # targets_thorough: further pieces of a partitioned contract
         n = heavy.get(t, 1)
         units.extend(("verify", t, i, n) for i in range(n))
     units.sort(key=lambda u: -heavy.get(u[1], 1))
@@ -348,6 +355,14 @@ def run_property(prop: Prop, tier: str, seed: int, new_world, timeout_quick=30.0
     else:
         results = [_unit(u) for u in units]
 
+    fps = {}
+    for r in results:
+        fp = r.get("fingerprint")
+        if fp:
+            fps.setdefault(fp[:2], set()).add(fp[2:])
+    for (wn_, key_), variants_ in fps.items():
+        if len(variants_) > 1:
+            status["undecided"].append(f"{wn_}::{key_}: the workers of this split function generated different obligation lists ({sorted(v[0] for v in variants_)} obligations): nothing about it is counted")
     records: list[ObRec] = []
     functions, canary_results = [], []
     trusted, inlined, assumed = set(), set(), set()
